@@ -107,12 +107,12 @@ def run(ctx):
     failed_refreshes = 0
     hook_runs = 0
     # phase 1: run the four drivers against the real code
-    plan = (("default", "TraceRefreshHold.cfg", ctx.pick(200, 1500), ctx.pick(32, 40)),
-            ("explicit", "TraceRefreshHoldExplicit.cfg", ctx.pick(50, 400), ctx.pick(32, 40)),
+    plan = (("default", "TraceRefreshHold.cfg", ctx.pick(120, 1500), ctx.pick(32, 40)),
+            ("explicit", "TraceRefreshHoldExplicit.cfg", ctx.pick(30, 400), ctx.pick(32, 40)),
             # refreshes through the real snapstate.Update + task runner (link-snap)
             ("realrefresh", "TraceRefreshHold.cfg", ctx.pick(6, 48), 14),
             # whole gate-auto-refresh hook runs: real hook handler + real snapctl refresh --hold/--proceed
-            ("hookrun", "TraceRefreshHold.cfg", ctx.pick(60, 1500), 14))
+            ("hookrun", "TraceRefreshHold.cfg", ctx.pick(40, 1500), 14))
     groups = {}          # trace cfg -> rows (modes sharing a cfg are validated in one TLC run; every history starts
     case_base = 0        # with a Reset event, so concatenation is a behaviour of the trace spec)
     for mode, tcfg, n, length in plan:
